@@ -432,10 +432,17 @@ def check_main(pid, cli_tier=None):
     verdict = 'violated' if violations else ('inconclusive' if (problems or missing) else 'held')
     coverage['verdict'] = verdict
     write_evidence(pid, tier, seed, coverage, time.time() - t0, total_unknown, mod.ASSUMPTIONS)
-    for fid, (k, devs) in known.items():
-        n = m['dev_counts'].get  # noqa: F841
-        print('KNOWN-FINDING: property=%s %s: %s (%d observations, e.g. %s)' % (
-            pid, fid, k['what'], len(devs), short(dec(devs[0]['case']), 120)))
+    # one line per *listed* open finding of this property (observed in this run or not)
+    for k in load_known()['findings']:
+        if k['property'] != pid or k['status'] != 'open':
+            continue
+        total = sum(v for kk, v in m['dev_counts'].items() if kk.endswith('|known:' + k['id']))
+        if k['id'] in known:
+            devs = known[k['id']][1]
+            print('KNOWN-FINDING: property=%s %s: %s (%d observations in this run, e.g. %s)' % (
+                pid, k['id'], k['what'], total, short(dec(devs[0]['case']), 120)))
+        else:
+            print('KNOWN-FINDING: property=%s %s: %s (not observed by this run\'s workload)' % (pid, k['id'], k['what']))
     print('%s tier=%s seed=%d evaluations=%d distinct=%d verdict=%s wall=%.1fs' % (
         pid, tier, seed, evaluations, len(m['distinct']), verdict, time.time() - t0))
     if violations:
